@@ -90,6 +90,13 @@ CHECKS = {
                      "Conformance: all event sequences up to depth 4 (thorough 5) over a 16-event alphabet, ~10 400 scripts per run, client and listener, are run against "
                      "the real engines on a paused clock; every frame / call / quiescence point is judged by the observer's C12_* clauses.",
                 note="trusted: harness frame parser and lock-step quiescence detection; error *classes* compared, not exact variants"),
+    "C17": dict(technique="TLC model check of channel allocation under the agreed channel-max and of heartbeat / idle time-out over a discrete clock (Limits.tla); TLC-generated channel-max pairs and timing scripts (LimitsGen.tla) executed on the paused tokio clock with 10 ms virtual steps; traces validated by the TLA+ observer",
+                design="4/C17",
+                text="MC: no begin above Min(local, remote); with remote time-out T a frame is written at least every T ticks; with local time-out L the endpoint is down exactly when nothing "
+                     "arrived for L ticks. Conformance: every pair from {0,1,2,5} (thorough + 3, 65535) with begins up to two beyond the limit, an end and two more begins; every sequence "
+                     "up to depth 3 (4) of advances 150 / 190 / 230 / 650 ms, peer empty frames and endpoint traffic for local / remote / both time-outs of 200 ms: C17_ChannelMax, "
+                     "C17_RefusedLocally, C17_NotRefusedEarly, C17_Heartbeat (exact virtual timestamps), C17_LocalTimeoutFires, C17_NoEarlyTimeout, C17_TimeoutReported.",
+                note="time-stamps are exact up to the 10 ms step of the virtual clock; the endpoint advertises half its configured time-out, the configured value is what is checked"),
     "C20": dict(technique="TLC-generated values and encodings; slice/reader/size/value-tree entry points compared by the harness, tree and bytes judged by the TLA+ decoder",
                 design="4/C20",
                 text="For every generated case: serialized_size = |to_vec|; from_slice and from_reader (chunk sizes 1,2,3,7,16,whole) agree and stop at the "
